@@ -245,6 +245,28 @@ var regressionShapes = []string{
 	"Rn / Rr / 'a'",
 }
 
+// switchFamily: three-way choices with disjoint first characters whose alternatives begin with every
+// kind of prefix (lookahead of the same or another character, optional, repetition, capture, action,
+// predicate, rule reference), in first and middle position, with and without an empty last alternative,
+// next to small and large neighbour classes: the shapes the -switch optimiser dispatches on.
+func switchFamily() []string {
+	heads := []string{
+		"'a' 'x'", "&'a' 'a' 'x'", "&'b' 'a' 'x'", "!'b' 'a' 'x'", "!'a' 'a' 'x'", "!(. 'b') 'a' 'x'", "&(. 'x') 'a' 'x'",
+		"'a'? 'a' 'x'", "'q'? 'a' 'x'", "'q'* 'a' 'x'", "'a'+ 'x'", "<'a'> 'x'", "{p.n += len(text)} 'a' 'x'", "&{p.ok} 'a' 'x'",
+		"Rc 'x'", "Rn 'a' 'x'", "[a-b] 'x'", "<[a-b]+> 'x'", "('a' 'x' / 'a' 'w')", "('a' / 'b') 'x'",
+	}
+	var out []string
+	for _, h := range heads {
+		out = append(out,
+			h+" / [c-d] 'y' / [e-g] 'z'",
+			"[c-d] 'y' / "+h+" / [e-g] 'z'",
+			h+" / [c-d] 'y' / [e-g] 'z' /",
+			h+" / [c-d] 'y' / [h-z] 'z'",
+			"([c-d] 'y' / "+h+") / [h-z] 'z' / '1'")
+	}
+	return out
+}
+
 type SchemaFile struct {
 	Name   string
 	Path   string
@@ -361,6 +383,9 @@ func writeSchemas(dir, tier string, seed int) ([]*SchemaFile, error) {
 	}
 	for _, t := range regressionShapes {
 		hz = append(hz, shape{text: t, desc: "regression witness"})
+	}
+	for _, t := range switchFamily() {
+		hz = append(hz, shape{text: t, desc: "switch family"})
 	}
 	for i := 0; i < len(hz); i += perFile {
 		j := i + perFile
